@@ -13,6 +13,11 @@ CHECKS = [
      "design_ref": "DESIGN.md section 3 C07",
      "note": "Trusted: POSIX O_EXCL/rename/unlink semantics (exercised on the real kernel), greenlet actors with private handles stand for processes, finalizers run before 'exit' is judged. Bounds: <=3 actors, <=2-3 chunks, one-shot faults; Windows rename path out of scope.",
      "technique": "TLC exhaustive model checking of LockFile.tla + TLC trace validation of real executions (systematic schedules, fault injection) + state-graph replay"},
+    {"id": "C08",
+     "text": "RefsFiles.tla models the files ref backend (loose file, packed-refs, both lock files, per-process packed snapshot) at the grain of observable file-system calls as a refinement of an atomic ref cell; TLC checks VisIsAbs/CasSound/AddSound/DelSound/ReadSound/NoLockLeft exhaustively for 2 actors over the full operation menu and the update-soundness invariants for 3 actors, and re-finds the historical orders as negative controls. The real code is explored directly: 2-3 actors with private DiskRefsContainer/Repo objects run real ref operations and commits under a deterministic scheduler at system-call grain, every schedule with a bounded number of preemptions from every initial layout {absent, loose, packed, both}; every recorded history is judged by TLC against RefsLin.tla (linearizability w.r.t. the sequential contract, operations that raised must have no effect, NoLostCommit on the real commit ancestry), and the observable event sequence of the executions is validated against RefsFiles (shape, drift only).",
+     "design_ref": "DESIGN.md section 3 C08",
+     "note": "Trusted: greenlet actors with private containers stand for processes (only the file system is shared); scheduling points are the interposed os-level calls on ref paths. Bounds: one contended ref + HEAD symref, <=3 actors, <=2 ops per actor, preemption bound 2 (quick) / 3 (thorough). One open known finding (pack_refs gathers values before taking packed-refs.lock), modelled as the named PackRead/PackWrite deviation in RefsLin.tla so that only histories explained exactly by it are suppressed. Reflog content not modelled.",
+     "technique": "TLC model checking of RefsFiles.tla (refinement of an atomic ref) + systematic schedule exploration of the real code with TLC linearizability checking of recorded histories (RefsLin.tla) + TLC shape conformance (RefsFilesTrace.tla)"},
 ]
 NOT_APPLICABLE = [
     {"property_id": "C01", "reason": "check under construction in this round (TLA+ module planned in DESIGN.md section 3); not claimed until its check is registered"},
@@ -21,7 +26,6 @@ NOT_APPLICABLE = [
     {"property_id": "C04", "reason": "check under construction in this round (TLA+ module planned in DESIGN.md section 3); not claimed until its check is registered"},
     {"property_id": "C05", "reason": "check under construction in this round (TLA+ module planned in DESIGN.md section 3); not claimed until its check is registered"},
     {"property_id": "C06", "reason": "check under construction in this round (TLA+ module planned in DESIGN.md section 3); not claimed until its check is registered"},
-    {"property_id": "C08", "reason": "check under construction in this round (TLA+ module planned in DESIGN.md section 3); not claimed until its check is registered"},
     {"property_id": "C09", "reason": "check under construction in this round (TLA+ module planned in DESIGN.md section 3); not claimed until its check is registered"},
     {"property_id": "C10", "reason": "check under construction in this round (TLA+ module planned in DESIGN.md section 3); not claimed until its check is registered"},
     {"property_id": "C11", "reason": "check under construction in this round (TLA+ module planned in DESIGN.md section 3); not claimed until its check is registered"},
